@@ -18,7 +18,9 @@ CLAIMED = {
                 "and AffineForm::merge adds multiplier x other term by term over the insertion-ordered map (insert / update / removal of cancelling coefficients); AffineForm::scale (retain with a mutating closure, read as a position loop by rule R53) multiplies every coefficient and the constant and drops the coefficients that become zero (U07.scale). "
                 "The propagation loop itself (a statement slice of propagate_affine_constraints: queue, requeueing through the dependency table, step limit, stop on infeasibility) is proved sound for EVERY schedule (U07.loop): an assignment inside the starting box "
                 "at which every constraint's comparison holds stays inside the box, given forms related to their constraints as from_constraint guarantees; index errors are panics (rule R54) about which nothing is claimed. "
-                "NOT decided deductively: the statements before the loop (building forms and dependencies: iterator chains), from_domain, apply_to_domain (publication, integer rounding): these are covered only by a BOUNDED search over "
+                "The two ends are under contract as well (U07.pub): from_domain builds a box that contains every assignment inside the declared domains, and apply_to_domain publishes for every variable a domain that contains every value of its declared domain lying in the inferred range "
+                "(integer ends rounded within the tolerance and cast with saturation must bracket every integer of the interval; reals copied; non-negative reals clipped at 0), leaving the key set unchanged. "
+                "NOT decided deductively: the glue (analyze_with_options, the statements before the loop that build forms and dependencies: iterator chains), and everything that depends on floating-point rounding (floats are exact reals in the proofs): these are covered only by a BOUNDED search over "
                 "the whole real analyser (18 systems x 3 domains x 3 step limits). That search exposes one KNOWN FINDING (recorded, not repaired): real bounds inexact in floating point are published without outward rounding. "
                 "Proof level because the statement is a for-all over reals and infinities that no grid of tests covers.",
         "note": "Trusted: prelude/f64_layer.rs (f64 treated as exact extended reals, IEEE special-value tables). Rounding error of finite arithmetic is out of reach and said so.",
